@@ -27,5 +27,5 @@ CONFIGS = [
 def run(check):
     runs = []
     for label, consts, inv in CONFIGS:
-        runs += usimrun.explore(check, None, [(label, consts)], invariants=inv, limit=15000 if check.tier == 'quick' else None)
+        runs += usimrun.explore(check, None, [(label, consts)], invariants=inv, limit=15000 if check.tier == 'quick' else 250000)
     usimrun.judge(check, OBS, runs)
